@@ -649,9 +649,9 @@ func extractSessionCompositeKey(data any, keys []string) string {
 		parts := make([]string, 0, len(keys))
 		for _, k := range keys {
 			if val, exists := m[k]; exists {
-				parts = append(parts, cast.ToString(val))
+				parts = append(parts, cast.KeyPart(val, '|'))
 			} else {
-				parts = append(parts, "")
+				parts = append(parts, cast.NullKeyPart)
 			}
 		}
 		return strings.Join(parts, "|")
@@ -665,19 +665,19 @@ func extractSessionCompositeKey(data any, keys []string) string {
 
 	parts := make([]string, 0, len(keys))
 	for _, k := range keys {
-		var part string
+		part := cast.NullKeyPart
 		switch v.Kind() {
 		case reflect.Map:
 			if v.Type().Key().Kind() == reflect.String {
 				mv := v.MapIndex(reflect.ValueOf(k))
 				if mv.IsValid() {
-					part = cast.ToString(mv.Interface())
+					part = cast.KeyPart(mv.Interface(), '|')
 				}
 			}
 		case reflect.Struct:
 			f := v.FieldByName(k)
 			if f.IsValid() {
-				part = cast.ToString(f.Interface())
+				part = cast.KeyPart(f.Interface(), '|')
 			}
 		}
 		parts = append(parts, part)
